@@ -122,7 +122,13 @@ func (ex *Exec) appendSlices(st *State, a, b Slice) Slice {
 		for i := 0; i < n; i++ {
 			arr = smt.Sto(arr, smt.Add(a.Len, fmt.Sprint(i)), smt.Sel(b.Arr, fmt.Sprint(i)))
 		}
-		return Slice{Arr: arr, Len: smt.Add(a.Len, b.Len), Elem: a.Elem, B: ex.newBacking()}
+		res := Slice{Arr: arr, Len: smt.Add(a.Len, b.Len), Elem: a.Elem, B: ex.newBacking()}
+		if n == 1 {
+			x := ex.boundName("x")
+			es := mustSort(a.Elem)
+			st.Assume(smt.Forall([][2]string{{x, es}}, smt.Eq(ex.Mem(res, x), smt.Or(ex.Mem(a, x), smt.Eq(x, smt.Sel(b.Arr, "0")))), ex.Mem(res, x)))
+		}
+		return res
 	}
 	r := ex.Ctx.Fresh("app", ArrSort(a.Elem))
 	k := ex.boundName("k")
@@ -511,7 +517,7 @@ func (ex *Exec) loopContract(fn *ssa.Function, ord int) *contract.Loop {
 
 func (ex *Exec) loopScope(st *State, b *ssa.BasicBlock, ord int) *Scope {
 	fr := st.Fr
-	sc := &Scope{St: st, Vars: map[string]Val{}, Addr: map[string]bool{}, Pkg: fr.Fn.Pkg, Iter: map[int]string{}}
+	sc := &Scope{St: st, Vars: map[string]Val{}, Addr: map[string]bool{}, Pkg: fr.Fn.Pkg, Iter: map[int]string{}, At: map[int]map[string]Val{}}
 	for k, v := range fr.Names {
 		sc.Vars[k] = v
 		if fr.Addr[k] {
@@ -529,6 +535,13 @@ func (ex *Exec) loopScope(st *State, b *ssa.BasicBlock, ord int) *Scope {
 			if phi.Comment == "rangeindex" {
 				if v, ok := fr.Env[phi]; ok {
 					sc.Iter[o] = smt.Add(v.(Int).T, "1")
+				}
+			} else if phi.Comment != "" {
+				if v, ok := fr.Env[phi]; ok {
+					if sc.At[o] == nil {
+						sc.At[o] = map[string]Val{}
+					}
+					sc.At[o][phi.Comment] = v
 				}
 			}
 		}
@@ -582,6 +595,12 @@ func (ex *Exec) enterLoop(st *State, b *ssa.BasicBlock, prev *ssa.BasicBlock, or
 			for k, t := range o.St.Heap {
 				if spec.Heap[k] != t && !wKeys[k] {
 					wKeys[k] = true
+					grew = true
+				}
+			}
+			for k, t := range o.St.Ghost {
+				if spec.Ghost[k] != t && !wKeys["ghost:"+k] {
+					wKeys["ghost:"+k] = true
 					grew = true
 				}
 			}
@@ -671,6 +690,11 @@ func (ex *Exec) havocLoop(st *State, b *ssa.BasicBlock, wObjs map[*Obj]bool, wKe
 	}
 	sort.Strings(keys)
 	for _, k := range keys {
+		if strings.HasPrefix(k, "ghost:") {
+			g := strings.TrimPrefix(k, "ghost:")
+			st.Ghost[g] = ex.Ctx.Fresh("loop_ghost_"+g, ex.GhostSort[g])
+			continue
+		}
 		st.Heap[k] = ex.Ctx.Fresh("loop_"+k, "(Array Ref "+ex.heapSort[k]+")")
 	}
 }
